@@ -69,6 +69,17 @@ package pair
 //@      ref(s.session.PrivateKey) != ref(s) && (s.step == 0 || s.step == 2 || s.step == 4 || s.step == 6) && (s.step == 4 ==> sessProven(s.session))
 //@ pred dbStep(d) = dbver(d) == old(dbver(d)) || (dbver(d) == old(dbver(d)) + 1 && storeOK(lastname(d), lastkey(d)))
 
+//@ func NewSetupServerSession(username, pin) (s, err)
+//@   trusted
+//@   pure
+//@   ensures err == nil ==> fresh(s) && s.session != nil && s.PrivateKey == nil
+//@   ensures err != nil ==> s == nil
+
+//@ func NewSetupServerController(device, database) (c, err)
+//@   requires device != nil && database != nil
+//@   ensures err == nil ==> fresh(c) && setupInv(c)
+//@   ensures err != nil ==> c == nil
+
 //@ func (setup *SetupServerController) reset()
 //@   requires setup != nil
 //@   modifies setup.step
@@ -147,7 +158,7 @@ package pair
 //@   modifies verify.step, *verify.session
 //@   ensures inv: verifyInv(verify)
 //@   ensures answered: err == nil ==> out != nil && ref(out) > 0
-//@   ensures auth: err == nil && len(cval(out, 6)) > 0 && seqat(cval(out, 6), 0) == 4 && len(cval(out, 7)) == 0 ==> authOK(seq(verify.session.SharedKey))
+//@   ensures auth: err == nil && len(cval(out, 6)) > 0 && seqat(cval(out, 6), 0) == 4 && (len(cval(out, 7)) == 0 || seqat(cval(out, 7), 0) == 0) ==> authOK(seq(verify.session.SharedKey))
 //@   ensures restart: len(cval(in, 0)) == 0 && len(cval(in, 6)) == 1 && seqat(cval(in, 6), 0) == 1 && old(verify.step) != 0 ==> err != nil && verify.step == 0
 
 //@ func (verify *VerifyServerController) handlePairVerifyStart(in) (out, err)
@@ -161,7 +172,7 @@ package pair
 //@   modifies verify.step
 //@   ensures inv: verify.step == 0 || verify.step == 4
 //@   ensures answered: err == nil ==> out != nil && ref(out) > 0
-//@   ensures auth: err == nil && len(cval(out, 7)) == 0 ==> authOK(seq(verify.session.SharedKey))
+//@   ensures auth: err == nil && (len(cval(out, 7)) == 0 || seqat(cval(out, 7), 0) == 0) ==> authOK(seq(verify.session.SharedKey))
 
 // ---------------------------------------------------------------- pairings controller (C13)
 
